@@ -4,7 +4,7 @@
     32-bit random values; UDP IPv4 uses the fixed block 41821+t and is isolated by the held local port only;
     cross-protocol pairs (e.g. ICMP vs UDP both reading ICMP errors) are covered by the correspondence, not proved. *)
 From Coq Require Import List ZArith Bool.
-From TR Require Import Lib.Bytes Wire.Decode Drv.Drivers Spec.C01 Pol.Alloc Proofs.AllocProofs Proofs.IsoProofs.
+From TR Require Import Lib.Bytes Wire.Decode Drv.Drivers Spec.C01 Pol.Alloc Proofs.AllocProofs Proofs.DrvProofs Proofs.IsoProofs Eng.Engine Eng.Timed Proofs.EngComplete Proofs.EngIso.
 Import ListNotations.
 Open Scope Z_scope.
 
@@ -41,3 +41,35 @@ Theorem C11_port_runs_isolated : forall cA cB stA stB v tA tB,
   /\ (c_loosen cA = false -> c_loosen cB = false -> c_local cA = c_local cB /\ c_sport cA = c_sport cB).
 Proof. exact port_runs_share_only_on_same_flow. Qed.
 Print Assumptions C11_port_runs_isolated.
+
+(** the lift to raw bytes on a shared wire: a packet that is a genuine reply for ICMP run B is never a hop for ICMP run A with a different echo identifier — whatever A has sent, at any time *)
+Theorem C11_foreign_icmp_reply_is_noise cA cB stA stB b v now tB :
+  cfg_ok cA -> c_variant cA = VIcmp -> c_variant cB = VIcmp -> c_echo_id cA <> c_echo_id cB ->
+  frame_parse b = PView v -> genuine cB stB v tB = true ->
+  forall t a r d, recv cA stA b now <> Hop t a r d.
+Proof. exact (@foreign_icmp_reply_is_noise cA cB stA stB b v now tB). Qed.
+Print Assumptions C11_foreign_icmp_reply_is_noise.
+
+(** same for UDP / TCP SYN / SACK runs that differ in target endpoint, or (strict checking) in local endpoint *)
+Theorem C11_foreign_port_reply_is_noise cA cB stA stB b v now tB :
+  cfg_ok cA -> c_variant cA = c_variant cB -> c_variant cA <> VIcmp ->
+  (c_target cA <> c_target cB \/ c_dport cA <> c_dport cB
+   \/ (c_loosen cA = false /\ c_loosen cB = false /\ (c_local cA <> c_local cB \/ c_sport cA <> c_sport cB))) ->
+  frame_parse b = PView v -> genuine cB stB v tB = true ->
+  forall t a r d, recv cA stA b now <> Hop t a r d.
+Proof. exact (@foreign_port_reply_is_noise cA cB stA stB b v now tB). Qed.
+Print Assumptions C11_foreign_port_reply_is_noise.
+
+(** the engine lift, ANY interleaving of own and foreign packets on the shared wire (foreign = not matched by this run's driver, by the two theorems above): nothing foreign enters the result and nothing foreign keeps an own reply that is readable by the deadline out of it.  (Replies that become readable in the last poll interval AFTER the deadline may or may not be picked up depending on what else woke the reader — the one place where a run is not bit-for-bit what it would be alone; named residue.) *)
+Theorem C11_shared_wire_isolation p own foreign shared r :
+  (forall e, In e shared <-> In e own \/ In e foreign) ->
+  (forall e, In e foreign -> e_kind e = 1) ->
+  parallel_run p shared = TDone r ->
+  (* nothing foreign is in the result: every accepted reply is one of the run's own entries *)
+  (forall q, In q (tr_accepted r) -> exists e, In e own /\ e_kind e <> 1 /\ matches e q)
+  (* and nothing foreign displaces an own reply: each own reply readable by the deadline is accepted *)
+  /\ (forall e s, In e own -> e_kind e = 0 -> In (e_ttl e, s) (tr_sends r) -> s + e_delay e <= pdeadline p ->
+        exists q, In q (tr_accepted r) /\ matches e q).
+Proof. exact (@shared_wire_isolation p own foreign shared r). Qed.
+Print Assumptions C11_shared_wire_isolation.
+
